@@ -346,11 +346,17 @@ func Find(logger logger.Logger, start, stop string) (string, error) {
 					return "", fmt.Errorf("could not resolve '%s': %w", e.Name(), err)
 				}
 				return abs, nil
-			} else if start == stop {
-				return "", errors.New("No spokfile found")
 			}
 		}
-		start = filepath.Dir(start)
+
+		// Only give up once the whole directory has been looked at (it may be empty, or
+		// the spokfile may not be the first entry), either because we've reached 'stop'
+		// or because there is nowhere further up to go
+		parent := filepath.Dir(start)
+		if start == stop || parent == start {
+			return "", errors.New("No spokfile found")
+		}
+		start = parent
 	}
 }
 
